@@ -688,4 +688,18 @@ def step (c : Conn) : Event → Conn × StepOut
     | .failwrite n => ({ c with wbudget := some n }, .frames [])
     | .read _ => (c, .readAgain)
 
+/-- `NewConn`: the client's own `Settings` start from the zero value of the struct (never `Reset`) and two setters are
+called, `SetMaxWindowSize(1 << 20)` and `SetPush(false)`, which mark their values as present -/
+def ownSettings : Frame.SettingsVal :=
+  { tableSize := 0, maxStreams := 0, windowSize := Gen.c_clientMaxWindow, frameSize := 0, headerSize := 0,
+    enablePush := false, hasWindowSize := true, hasPush := true }
+
+/-- the (identifier, value) pairs of the SETTINGS frame `Handshake` writes: what `Settings.Encode` makes of
+`ownSettings` — ENABLE_PUSH = 0 and INITIAL_WINDOW_SIZE; the untouched zeros are left out -/
+def handshakeSettings : List (Nat × Nat) :=
+  let rec pairs : Bytes → List (Nat × Nat)
+    | k0 :: k1 :: v0 :: v1 :: v2 :: v3 :: rest => (k0 * 256 + k1, be32 [v0, v1, v2, v3]) :: pairs rest
+    | _ => []
+  pairs (Frame.settingsEncode ownSettings)
+
 end H2.Client
